@@ -41,6 +41,7 @@ func main() {
 		}
 		g.TagSel = func(c string) bool { return sel[c] }
 	}
+	core.HarvestSamples(*outp+".samples", sx.EnvSeed(), 6)
 	core.GenRx(g)
 	core.GenConsumer(g)
 	core.GenTransport(g)
